@@ -34,7 +34,11 @@ BaseMenu == <<
   [kind |-> "deconv", hp |-> HP(1, 2, 2, 2, 2, 0, 0, 1, 1, "linear", FALSE)],
   [kind |-> "deconv", hp |-> HP(2, 3, 2, 1, 2, 1, 0, 1, 1, "relu", FALSE)],
   [kind |-> "pool",   hp |-> HP(1, 2, 2, 2, 2, 0, 0, 1, 1, "linear", FALSE)],
-  [kind |-> "pool",   hp |-> HP(1, 2, 1, 1, 2, 0, 0, 1, 1, "linear", FALSE)]
+  [kind |-> "pool",   hp |-> HP(1, 2, 1, 1, 2, 0, 0, 1, 1, "linear", FALSE)],
+  \* 12, 13: on 1 x 5 x 5 the first pads 5 x 5 to 7 x 7 (padding 1), the second pads its 3 x 3 input to 7 x 7 as well
+  \* (padding 2): the same padded size with different borders, one after the other
+  [kind |-> "conv",   hp |-> HP(1, 3, 3, 2, 2, 1, 1, 1, 1, "linear", FALSE)],
+  [kind |-> "conv",   hp |-> HP(1, 3, 3, 1, 1, 2, 2, 1, 1, "relu", FALSE)]
 >>
 
 FlatMenu ==
@@ -45,7 +49,7 @@ FlatMenu ==
 Menu == IF FlatMax = 0 THEN BaseMenu ELSE FlatMenu
 Sel  == IF FlatMax = 0 THEN MenuSel ELSE 1..(FlatMax + 3)
 
-InputMenu == << <<4>>, <<6>>, <<9>>, <<16>>, <<1, 4, 4>>, <<2, 3, 5>>, <<1, 6, 6>>, <<2, 4, 3>> >>
+InputMenu == << <<4>>, <<6>>, <<9>>, <<16>>, <<1, 4, 4>>, <<2, 3, 5>>, <<1, 6, 6>>, <<2, 4, 3>>, <<1, 5, 5>> >>
 Inputs == {InputMenu[i] : i \in InputSel}
 
 PrevOut == IF net.layers = <<>> THEN net.input ELSE
